@@ -515,7 +515,12 @@ def shard_pump(task):
                 ev.excluded_known[kid] += 1
             fails.setdefault(kid or f.key, f)
             ev.case(key=(fam, n), nontrivial=True, labels=("c:exceeded",))
-            todo = [(i, fm) for i, fm in todo if i > idx]
+            # every further family with the same opener would spend the whole budget again: the opener is reported
+            # once and the search moves on to the other openers (on a tree that holds nothing is ever skipped)
+            tk = _time_key(fam)
+            skipped = [i for i, fm in todo if i > idx and _time_key(fm) == tk]
+            ev.notes["pump_families_skipped_after_timeout"] = ev.notes.get("pump_families_skipped_after_timeout", 0) + len(skipped)
+            todo = [(i, fm) for i, fm in todo if i > idx and _time_key(fm) != tk]
         else:
             todo = []
     ev.notes["pump_max_cpu_us_by_n"] = maxus
